@@ -102,7 +102,8 @@ struct Cfg {
     /// the pool carries a packet filter that admits one of the two connections only
     flt: bool,
     /// the pool is ended the way `process_parallel` ends it: `shutdown()` right after the last dispatch, pool kept alive
-    /// (TCP pool only; the other two are ended by dropping the pool, as their analyzers do)
+    /// (TCP pool only; the other two are ended by dropping the pool, as their analyzers do). For C18 configurations the
+    /// field means: the receiver of the results is dropped before the first dispatch
     term: bool,
 }
 impl Cfg {
@@ -158,6 +159,7 @@ fn c18_one(c: &Cfg) -> (usize, Vec<String>) {
         })
         .collect();
     crate::shim::vchan::TIMEOUT_BUDGET.store(c.to, std::sync::atomic::Ordering::Relaxed);
+    let rxdrop = c.term;
     let n = model(c.pb, move || {
         shim::vchan::registry_clear();
         let mut got: Vec<String> = vec![];
@@ -167,6 +169,14 @@ fn c18_one(c: &Cfg) -> (usize, Vec<String>) {
             ($modname:ident, $newexpr:expr, $summ:expr) => {{
                 let (tx, rx) = shim::vstd::sync::mpsc::channel();
                 let pool = Arc::new($newexpr(tx));
+                // rxdrop: the consumer of the results goes away first; a worker that cannot deliver a result stops, and
+                // packets dispatched to it afterwards are refused (Disconnected) -- they must still be counted as dropped
+                let rx = if rxdrop {
+                    drop(rx);
+                    None
+                } else {
+                    Some(rx)
+                };
                 let hs: Vec<_> = (0..2usize)
                     .map(|i| {
                         let p = pool.clone();
@@ -180,8 +190,10 @@ fn c18_one(c: &Cfg) -> (usize, Vec<String>) {
                 let st = pool.stats();
                 counters = (st.total_dispatched, st.total_dropped, st.workers.iter().map(|w| w.dropped).sum::<u64>());
                 drop(pool);
-                while let Ok(r) = rx.recv() {
-                    got.push($summ(&r));
+                if let Some(rx) = rx {
+                    while let Ok(r) = rx.recv() {
+                        got.push($summ(&r));
+                    }
                 }
             }};
         }
@@ -190,6 +202,12 @@ fn c18_one(c: &Cfg) -> (usize, Vec<String>) {
             "http" => {
                 let (tx, rx) = shim::vstd::sync::mpsc::channel();
                 let pool = http_parallel::WorkerPool::new(workers, cap, batch, 10, tx, None, 8, None).unwrap();
+                let rx = if rxdrop {
+                    drop(rx);
+                    None
+                } else {
+                    Some(rx)
+                };
                 let hs: Vec<_> = (0..2usize)
                     .map(|i| {
                         let p = pool.clone();
@@ -203,8 +221,10 @@ fn c18_one(c: &Cfg) -> (usize, Vec<String>) {
                 let st = pool.stats();
                 counters = (st.total_dispatched, st.total_dropped, st.workers.iter().map(|w| w.dropped).sum::<u64>());
                 drop(pool);
-                while let Ok(r) = rx.recv() {
-                    got.push(format!("{:?}", drv::http_res(&r)));
+                if let Some(rx) = rx {
+                    while let Ok(r) = rx.recv() {
+                        got.push(format!("{:?}", drv::http_res(&r)));
+                    }
                 }
             }
             _ => body!(tls_parallel, |tx| tls_parallel::WorkerPool::new(workers, cap, batch, 10, tx, 8, None).unwrap(), |r: &huginn_net_tls::TlsClientOutput| format!("{:?}", drv::tls_out(r))),
@@ -221,7 +241,9 @@ fn c18_one(c: &Cfg) -> (usize, Vec<String>) {
         want.sort();
         let mut g = got.clone();
         g.sort();
-        assert_eq!(g, want, "results delivered differ from one result per queued packet");
+        if !rxdrop {
+            assert_eq!(g, want, "results delivered differ from one result per queued packet");
+        }
         oc.lock().unwrap().insert(format!("queued={queued}"));
     });
     let o = outcomes.lock().unwrap().iter().cloned().collect();
@@ -407,6 +429,10 @@ fn configs(prop: &str, thorough: bool) -> Vec<Cfg> {
                 // one Timeout answer per worker queue (the worker may run dry between the dispatchers' packets)
                 if cap == 1 || thorough {
                     v.push(Cfg { prop: prop.into(), pool: pool.into(), workers: 1, cap, batch: 1, pb: Some(2), to: 1, flt: false, term: false });
+                }
+                // the result consumer is gone before the first dispatch: refused packets are still counted
+                if cap >= 1 {
+                    v.push(Cfg { prop: prop.into(), pool: pool.into(), workers: 1, cap, batch: 1, pb: Some(if thorough { 3 } else { 2 }), to: 0, flt: false, term: true });
                 }
             }
         } else {
